@@ -7,6 +7,7 @@ import Dawgs.Model.SqlEval
 import Dawgs.Model.GraphGen
 import Dawgs.Model.C01
 import Dawgs.Model.C01S2
+import Dawgs.Model.C01Chain
 /-! C01 semantic-search driver (suite `c01sem`, also used by C02).
 
 Input: `sem <gseed> <nrandom> <exN> <exE> <kindmap> <params> <cypher sexp> <sql sexp>` — the parsed Cypher model and the REAL emitted
@@ -377,7 +378,9 @@ def tieStep (_ : Unit) (ts : List String) : Unit × String :=
           | some s1 => some ("S1", s1.toCy == q, s1.wf)
           | none => match C01.ofCy2 q with
             | some s2 => some ("S2b", s2.toCy == q, s2.wf)
-            | none => none
+            | none => match C01.ofCyChain q with
+              | some ch => some ("S2c", ch.toCy == q, ch.wf)
+              | none => none
         match stage with
         | none => ((), "outside-fragment")
         | some (stg, reading, wf) =>
@@ -385,7 +388,7 @@ def tieStep (_ : Unit) (ts : List String) : Unit × String :=
           if !wf then ((), "outside-fragment not-well-formed-for-" ++ stg) else
           -- the hop's join order is the translator's choice (selectivity heuristic over its Go tree): the real statement must be the
           -- model statement for ONE of the two orders; `dir` records whether it is the order the model's approximation picks
-          let cands := [C01.tr2F (fun _ => false) km q, C01.tr2F (fun _ => true) km q].filterMap id
+          let cands := [C01.tr3F (fun _ => false) (fun _ => false) km q, C01.tr3F (fun _ => true) (fun _ => true) km q].filterMap id
           match cands with
           | [] => ((), "tie-differs model-translator-rejects-a-translated-query")
           | (st0, ps) :: _ =>
@@ -393,7 +396,7 @@ def tieStep (_ : Unit) (ts : List String) : Unit × String :=
             if !(cands.any (fun c => c.1 == s)) then
               ((), "tie-differs model=" ++ ((toString (repr st0)).replace "\n" " ").replace " " "_" ++ " real=" ++ ((toString (repr s)).replace "\n" " ").replace " " "_")
             else
-              let dir := if (C01.tr2 km q).map (·.1) == some s then "model" else "other"
+              let dir := if (C01.tr2 km q).map (·.1) == some s then "model" else (if cands.head?.map (·.1) == some s then "unflipped" else "flipped")
               match gs.toNat?, nr.toNat?, en.toNat?, ee.toNat? with
               | some gseed, some nrandom, some exN, some exE =>
                 let graphs := graphsFor gseed nrandom exN exE
